@@ -39,6 +39,50 @@ def gen_scene(rnd):
     return nodes, edges, drag, rnd.randint(6, 14), dx, dy
 
 
+def abutting_scene(rnd):
+    """two nodes whose sides lie on one line (touching in one axis, apart in the other), an edge running through the gap between their
+    facing corners, and one of them pushed towards the other across that edge: bends arrive on coincident corner positions"""
+    sc = rnd.choice([2, 4, 5])                         # lattice scale
+    w1, h1, w2, h2 = (rnd.choice([6, 10, 14]) * sc for _ in range(4))
+    gap = rnd.choice([3, 4, 6]) * sc
+    x = 20 * sc
+    n1 = [x - w1, 30 * sc + h2 + gap, w1, h1]          # left of the line, lower
+    n2 = [x, 30 * sc, w2, h2]                           # right of the line, upper
+    # the edge A--B passes through the middle of the gap with positive slope: above n1's facing corner, below n2's
+    gx, gy = x, n2[1] + h2 + gap / 2.0
+    m = rnd.choice([0.4, 0.7, 1.0, 1.5])
+    ta = w2 + rnd.choice([3, 6, 10]) * sc
+    tb = w1 + rnd.choice([3, 6, 10]) * sc
+    a = [int(round(gx + ta - sc)), int(round(gy + m * ta - sc)), 2 * sc, 2 * sc]
+    b = [int(round(gx - tb - sc)), int(round(gy - m * tb - sc)), 2 * sc, 2 * sc]
+    nodes = [a, b, n1, n2]
+    edges = [(0, 1)]
+    drag, dx, dy = (2, 0, -rnd.choice([2, 3]) * sc) if rnd.random() < 0.7 else (3, 0, rnd.choice([2, 3]) * sc)
+    steps = rnd.randint(8, 16)
+    if rnd.random() < 0.5:
+        # one big move: the whole approach, the meeting of the corners and the sliding past happen inside one solve loop
+        big = gap + rnd.choice([4, 8, 12]) * sc
+        dy = -big if dy < 0 else big
+        steps = rnd.randint(1, 3)
+    # one of the 8 symmetries of the square, so that both axes and both directions are exercised
+    t = rnd.randint(0, 7)
+    M = 120 * sc
+    def tr(nd):
+        x0, y0, w, h = nd
+        if t & 1: x0 = M - x0 - w
+        if t & 2: y0 = M - y0 - h
+        if t & 4: x0, y0, w, h = y0, x0, h, w
+        return [x0, y0, w, h]
+    if t & 1: dx = -dx
+    if t & 2: dy = -dy
+    if t & 4: dx, dy = dy, dx
+    nodes = [tr(nd) for nd in nodes]
+    ctr = lambda i: (nodes[i][0] + nodes[i][2] / 2.0, nodes[i][1] + nodes[i][3] / 2.0)
+    if any(seg_hits_rect(ctr(0), ctr(1), nodes[k]) for k in (2, 3)):
+        return None
+    return nodes, edges, drag, steps, dx, dy
+
+
 def main(tier):
     ev = V.Evidence(PID, tier)
     vd = V.Verdict(PID, ev)
@@ -47,6 +91,10 @@ def main(tier):
     d = V.rundir('c13')
     rnd = random.Random(V.seed())
     scenes = [gen_scene(rnd) for _ in range(150 if quick else 4000)]
+    for _ in range(150 if quick else 3000):
+        sc = abutting_scene(rnd)
+        if sc:
+            scenes.append(sc)
     sf = os.path.join(d, 'scenes.txt')
     with open(sf, 'w') as f:
         for nodes, edges, drag, steps, dx, dy in scenes:
